@@ -289,20 +289,32 @@ CHECKS = {
         thorough=[R("^TestGeraMap$", 100000, 2, 1500), R("^TestStageVisibility$", 15000, 4, 1500), R("^TestPrecedenceFixed$", 1, 1, 300), R("^TestPrecedence$", 300, 14, 3400, shrinktime="180s")],
     ),
     "C15": dict(
-        pkg="./props/c15", bins=["./cmd/simcore"], level="exploration",
+        pkg="./props/c15", bins=["./cmd/simcore"], race_bins=["./cmd/simcore"], level="exploration",
         rule=("Grammar-generated workflow templates (aggregators, tasks, calls, an include of a second generated file; every role optionally an "
               "iterator over a JSON range variable or begin/end with 0-4 elements, nested up to 4 deep; enabled expressions that evaluate to "
-              "true/false through variables, comparisons, padding and '1') loaded by two real cores -- all three concurrency switches on, and "
+              "true/false through variables, comparisons, padding and '1'; inner iterator ranges that are expressions over an enclosing iteration variable; role vars that reference iteration variables of enclosing levels) loaded by two real cores -- all three concurrency switches on, and "
               "all off -- and twice on the same core. Oracle: (i) the canonical dump of the loaded tree (role paths in order, task counts, "
               "iteration and flag variables of every role) is identical across the three loads; (ii) it equals the output of a reference "
               "expander (disabled roles and emptied aggregators absent, iterators expanded in range order, iteration variable bound per "
               "instance); (iii) with a template error injected in a role that is instantiated (role name, enabled expression, iterator "
-              "range) the load fails on every core, no environment is listed and no task was launched. Non-trivial: >=1 iterator and >=1 "
-              "disabled role, or an injected error."),
+              "range) the load fails on every core, no environment is listed and no task was launched. (B) The same grammar enriched with defaults/vars "
+              "referring to other levels, constraints, bind/connect channels, task and call traits and errors that occur in only some "
+              "instances of an iterator, processed in process (workflow.ProcessTemplates through an overlay hook) under all eight switch "
+              "settings, twice each: the canonical dump of every role (path, kind, enabled, own and consolidated variables, own and inherited "
+              "constraints, channels, traits) must be identical, equal the reference expansion, and a reached error must fail every load. "
+              "(C) Stress: an iterator with exactly one failing instance among 2-17 is loaded thousands of times with all switches on; every "
+              "load must fail. (D) -race core: reports inside ProcessTemplates/expandTemplate/generateRole/GetRange are violations. "
+              "Non-trivial: >=1 iterator and >=1 disabled role, or an injected error."),
         assumptions=["an injected error in a role that is never instantiated (disabled ancestor, empty range) is not required to fail the load; such cases are counted inconclusive",
                      "expansions are capped at 24 roles so that every load can be deployed"],
-        quick=[R("^TestLoadFixed$", 1, 1, 300), R("^TestLoad$", 12, 7, 900, shrinktime="30s")],
-        thorough=[R("^TestLoadFixed$", 1, 1, 300), R("^TestLoad$", 150, 7, 3400, shrinktime="180s")],
-        floors={"iterator": ("TestLoad", 0.5), "disabled-role": ("TestLoad", 0.4), "injected-error": ("TestLoad", 0.08)},
+        quick=[R("^(TestLoadFixed|TestLoadInProcessFixed)$", 1, 1, 300), R("^TestLoad$", 40, 6, 900, shrinktime="30s"),
+               R("^TestLoadInProcess$", 250, 6, 900, shrinktime="30s"), R("^TestErrorNeverLost$", 1, 2, 900),
+               R("^TestLoad$", 15, 1, 900, race=True, env={"VERIF_RACE": "1"}, shrinktime="30s")],
+        thorough=[R("^(TestLoadFixed|TestLoadInProcessFixed)$", 1, 1, 300), R("^TestLoad$", 1500, 6, 3400, shrinktime="180s"),
+                  R("^TestLoadInProcess$", 8000, 8, 3400, shrinktime="180s"), R("^TestErrorNeverLost$", 1, 6, 3400),
+                  R("^TestLoad$", 300, 2, 3400, race=True, env={"VERIF_RACE": "1"}, shrinktime="60s")],
+        floors={"iterator": ("TestLoad", 0.5), "disabled-role": ("TestLoad", 0.4), "injected-error": ("TestLoad", 0.08),
+                "range-depends-on-outer-iteration": ("TestLoad", 0.15), "cross-level-variable-reference": ("TestLoad", 0.2),
+                "nested-iterator": ("TestLoadInProcess", 0.2), "injected-error-reached": ("TestLoadInProcess", 0.08)},
     ),
 }
